@@ -2,4 +2,5 @@
 SPECIFICATION Spec
 CONSTANTS
   Level = "quick"
+  Variant = "none"
 INVARIANT Emit
